@@ -313,6 +313,19 @@ def stoprule_case(rep):
     r, _ = prove(z3.And(z3.Or(it >= mx, res <= tol, fd), z3.Not(fc)) == z3.BoolVal(paths[0].result), pre + list(paths[0].pc), name='stoprule/mutated', kind='vacuity')
     both = {p.result for p in paths}
     rep.vac('stoprule/both-outcomes-reachable', 'sat' if both == {True, False} else 'unsat', 'sat')
+    # residual values that are not real numbers (an overflowing run reports inf or NaN): not 'at most restol', so only the budget or a flag may stop the step
+    # (ENUMERATED, concrete: the reals of the queries above do not contain them)
+    for resv in (float('nan'), float('inf')):
+        for itv, mxv, fdv, fcv in ((1, 5, False, False), (0, 5, False, False), (3, 3, False, False), (7, 3, False, False), (1, 5, True, False), (3, 3, False, True), (1, 5, True, True)):
+            St = SimpleNamespace(levels=[SimpleNamespace(status=SimpleNamespace(residual=resv, sweep=1, get=lambda k, d=None: d), params=_Lp(1e-8))],
+                                 status=SimpleNamespace(iter=itv, force_done=fdv, force_continue=fcv), params=SimpleNamespace(maxiter=mxv))
+            got = bool(CheckConvergence.check_convergence(St))
+            exp = ((itv >= mxv) or fdv) and not fcv
+            rep.translator += 1
+            if got != exp:
+                rep.violation(f'{PID}/check_convergence/stopping-rule/non-finite-residual', f'check_convergence returns {got} for residual {resv}, iter {itv}, maxiter {mxv}, force_done {fdv}, force_continue {fcv}; a residual that is not a number is not within the tolerance: {exp} expected',
+                              {'task': ['stoprule'], 'values': {'res': str(resv), 'it': itv, 'mx': mxv, 'fd': fdv, 'fc': fcv, 'tol': 1e-8, 'sw': 1}, 'observed': got, 'expected': exp})
+                break
     rep.sample({'case': 'stoprule', 'paths': len(paths), 'free_variables': 'iter, maxiter, sweep, residual, restol, force_done, force_continue'})
 
 
@@ -328,6 +341,13 @@ def replay(path):
         from harness import c07
 
         return c07.replay(path)
+    elif t[0] == 'stoprule':
+        v = d['values']
+        St = SimpleNamespace(levels=[SimpleNamespace(status=SimpleNamespace(residual=float(v['res']), sweep=int(v['sw']), get=lambda k, d_=None: d_), params=_Lp(float(v['tol'])))],
+                             status=SimpleNamespace(iter=int(v['it']), force_done=str(v['fd']) == 'True', force_continue=str(v['fc']) == 'True'), params=SimpleNamespace(maxiter=int(v['mx'])))
+        got = bool(CheckConvergence.check_convergence(St))
+        print('check_convergence returns', got, 'expected', d['expected'])
+        bad = got != d['expected']
     else:
         print('replay of', t[0], 'is the recorded concrete re-execution:', d)
         bad = True
